@@ -19,8 +19,9 @@
     normal phase      as `Cfg.step` of Model/Crash.lean (every trace accepted there is accepted
                       here), plus
     F1'  a data sync may fail: everything stays pending, the committed state is unchanged, the
-         transaction may write more pages and sync again; a commit header is accepted only when
-         nothing is pending (i.e. a sync has succeeded after the last write), as in `Cfg.step`;
+         transaction may write more pages and sync again; a commit header is accepted exactly as
+         in `Cfg.step`: the pages of the named state are durable (as of the last COMPLETED sync)
+         and no pending operation touches them - normally nothing is pending at all;
     P1   idempotent restore: with no header in flight, a header write into the inactive slot
          carrying exactly what that slot durably holds (`base.durable.slots (1 - aSlot)`) is
          accepted (marked `restore` or unmarked `hdr`); it joins the pending operations (the
